@@ -16,4 +16,96 @@ CHECKS = {
           "lists are recorded as drift, not judged.",
   "technique": "TLA+ spec (Layout.tla) model-checked by TLC; TLC-generated behaviours replayed into the real shard with state comparison after every action",
  },
+ "C11": {
+  "text": "TLC exhaustively checks Routing.tla (shard groups as sorted [start,end) spans incl. RANGE re-sharding, HASH/RANGE sharding, "
+          "shard key as a subsequence of the tag keys (optionally altered between groups), an uninterpreted hash tried with several functions, WriteRoute and the sound "
+          "Prune rule over condition trees mixing tag =, !=, regexes, field comparisons, time bounds, AND/OR/parentheses) for "
+          "UniqueCoveringShard and PruneSound within the cfg bounds (all trees of depth <= 2 over the full leaf alphabet, all trees of "
+          "depth 3 over a smaller one); TLC-exported cases (every depth-2 tree per setup plus seeded random depth-3 trees, each with the "
+          "expected write route, truth value per row and the predictions of the deviation models) are replayed into the real "
+          "coordinator: rows through PointsWriter.RetryWritePointRows on real meta.Data (CreateShardGroup / ReSharding / ShardFor / "
+          "DestShard), conditions through ConditionExpr + RewriteRegexConditions + ClusterShardMapper.MapShards (ShardGroupsByTimeRange, "
+          "TargetShards); a row satisfying a condition must lie in a consulted shard and every accepted row must reach exactly one "
+          "shard, of the group covering its timestamp, at the position given by its shard key.",
+  "design_ref": "DESIGN.md section 5 C11",
+  "note": "Bounds of the cfg files (2 tag keys, 2-3 values, 1-8 shards per group, 2-4 groups, RANGE with 1-2 split points); in process "
+          "(real metaclient.Client over real meta.Data, meta commands applied directly, recording store); tag/field/measurement names, group "
+          "duration, extra tags and time literal syntax drawn per case from the seed; hint queries, column store, offline partitions and "
+          "the black-box ptnum comparison of the design are not covered; open findings F-C11-1..5 are re-observed and attributed only "
+          "when the consulted set equals a deviation model's prediction exactly.",
+  "technique": "TLA+ spec (Routing.tla) model-checked by TLC; TLC-generated (setup, rows, condition) cases replayed into the real points writer and shard mapper",
+ },
+ "C17": {
+  "text": "TLC exhaustively checks RaftStorage.tla: an implementation-level model of lib/raftlog (files of FileCap slots standing for "
+          "30000, entryLog.slotGe, AddEntries with truncation inside the current file or into an earlier file and deletion of the later "
+          "files, rotation, whole-file deleteBefore, Close/Init with the re-applied deleteBefore(snapshot index), hard state and "
+          "snapshot in the meta file) against the reference it must agree with (etcd MemoryStorage: Append/Compact/CreateSnapshot) for "
+          "ReadsConsistent (FirstIndex, LastIndex, Term(i), Entries(lo,hi,maxSize) for all arguments), Contiguous, TermMonotone, "
+          "SnapshotSane within the cfg bounds; one path per distinct state of a small export config plus seeded simulation behaviours "
+          "(up to 10 abstract entries = 4 real files, 3 reopens) are replayed into a real RaftDiskStorage on /dev/shm, one abstract entry "
+          "being a block of concrete entries so that 3 abstract slots are exactly one real file of 30000 entries; after every action "
+          "FirstIndex, LastIndex, Term at first-1/first/block and file edges +-1/middle/last/last+1, Entries for pairs of those points "
+          "with several size limits plus a full scan (index, term, type, payload), Snapshot and InitialState are compared with the "
+          "specification's expectation; etcd's MemoryStorage is fed the same operations as a cross-check of the specification.",
+  "design_ref": "DESIGN.md section 5 C17",
+  "note": "Bounds of the cfg files; block edges per file period drawn from a palette by the seed (10000/20000 +-1, 1/29999, 1/2, ...); tiny "
+          "payloads, so rotation by the 32 MiB size limit is not exercised; clean Close/Init only (no crash points); domain: saves continue, "
+          "overlap or conflict above the snapshot index without gaps, CreateSnapshot for stored indexes newer than the current snapshot; "
+          "installing a snapshot beyond the end of the log (ApplySnapshot) is not explored (a probe shows the old entries stay readable); "
+          "entry-file-rw-type 2 in ~80% and 1 in ~20% of the cases; open findings F-C17-1 (payload of a file's first entry lost after a "
+          "truncation into that file + reopen) and F-C17-2 (Term classification outside the stored slots) are re-observed and attributed "
+          "only when the real result equals the deviation model's prediction exactly.",
+  "technique": "TLA+ spec (RaftStorage.tla) model-checked by TLC; TLC-generated behaviours replayed into the real RaftDiskStorage with comparison of all read operators after every action",
+ },
+ "C12": {
+  "text": "TLC exhaustively checks ExprRoundTrip.tla: the expression grammar as a generator (18 binary operators with the precedence / "
+          "associativity table of token.go, unary minus, ParenExpr as an explicit node, calls of arity 0..2, 23 literal classes and 6 "
+          "identifier classes), Print (tree -> tokens, the printer adds no parentheses) and Parse (precedence climbing, the scanner's "
+          "rule for '/'), for the invariants PlanIsTree, PlanProducible, WireIsText and RoundTrip (Parse(Print(e)) = e) over every "
+          "producible tree of 3 node levels with all operators, of 4 levels with one operator per precedence level, and every "
+          "literal/identifier class under every operator. The same trees plus seeded random trees of depth <= 5 are replayed into the "
+          "real code: text -> ParseExpr and -> statement parser (sql.y) must give the specification's tree; String() -> ParseExpr must "
+          "give the same tree with literal types and values; the expressions then travel through ProcessorOptions and RemoteQuery "
+          "Marshal/Unmarshal, hybridqp.ExprOptions, MarshalQueryNode/UnmarshalQueryNode (schema fields + logical plan) and seeded "
+          "Chunks (all column types, nulls, tags, dims) through the chunk codec; everything must come back equal.",
+  "design_ref": "DESIGN.md section 5 C12",
+  "note": "Bounds of the cfg files (depth 3/4 exhaustive, depth 5 sampled); literal and identifier classes get concrete texts per "
+          "occurrence from the seed; trees outside the statement grammar go through ParseExpr only; unary minus is compared with the "
+          "product (-1 * x) the parsers build for it; plan codec with a series/index-scan/exchange plan and only for expressions the "
+          "planner accepts as a field. Eight open findings (F-C12-1..8: integral float printed as integer, unary minus loses grouping, "
+          "AND/OR precedence of sql.y, integer saturation in yyParser.Lex, sub-microsecond durations, bitwise operators unknown to "
+          "ParseExpr, unquoted sort field names, non-float fill value dropped) are re-observed and attributed only when the real result equals the prediction of "
+          "the finding's deviation model exactly.",
+  "technique": "TLA+ spec (ExprRoundTrip.tla) model-checked by TLC; TLC-generated expression trees and token texts replayed into the real parsers, printer and shipping codecs with structural comparison",
+ },
+ "C20": {
+  "text": "TLC exhaustively checks SparseIndex.tla, a transcription of the key-condition algorithm engine/index/sparseindex ports "
+          "(sorted key records over 1-3 key columns with values 0..2 and null = +infinity, fragments of 1-3 rows with a short last "
+          "fragment, the index record = first key of every fragment + last row, RPN atoms InRange / NotInRange / InSet / AlwaysTrue / "
+          "Unknown, integer open bounds closed, the (canBeTrue, canBeFalse) mask algebra, checkInAnyRange over key-prefix "
+          "hyper-rectangles with its early exits, binary and exclusion search with coarse-index settings) for NeverSkipsMatch and "
+          "MayCoversMatch (MayBeInRange holds for every run of fragments containing a fragment with a matching row) within the cfg "
+          "bounds (all records up to 3 rows x all condition trees of depth 1 over = != < <= > >= and a non-key atom). TLC-exported "
+          "cases (every path of a small BFS config + seeded simulation: up to 3 key columns, 8 rows, trees of depth 3 with IN, LIKE / "
+          "MATCH / MATCHPHRASE, non-key atoms, time bounds, integer / other column kinds), each carrying the design's selection, the "
+          "brute-force matching fragments and the predictions of the as-implemented deviation models, are replayed into the real "
+          "PKIndexWriterImpl.Build -> NewKeyCondition (conditions built as influxql expressions, time bounds through "
+          "GetTimeCondition) -> PKIndexReaderImpl.Scan with 3-4 column-type concretisations per case (integer, float, string, "
+          "boolean) and 7 reader settings (binary search allowed / exclusion search forced, coarse index 2, 3, 8, seek merging); the "
+          "index record and the RPN shape are compared with the specification and every Scan is judged for soundness: a fragment "
+          "with a brute-force matching row that is not selected is a divergence. The set, bloom-filter and min-max skip-index "
+          "readers are asked MayBeInFragment for the same cases (bloom filter on the file the real BloomFilterWriter writes) and "
+          "judged by the same inclusion.",
+  "design_ref": "DESIGN.md section 5 C20",
+  "note": "Bounds of the cfg files; pure in-process API (no column-store measurement end to end: design option (i) plus the reader-level "
+          "variant of (ii)); records are handed over sorted with nulls last, the order the index reader assumes (the column-store write "
+          "path rejects null primary keys; record.SortHelper would put them first); selecting more or fewer fragments than the "
+          "specification while staying sound is recorded as drift; the min-max reader has no production ReadFunc and its writer writes "
+          "nothing, it is given the sorted first key column and is not driven with null bounds (a null bound makes it overwrite the "
+          "shared NEGATIVE_INFINITY sentinel); the set writer writes nothing. Open findings F-C20-1..6 are re-observed on the unchanged "
+          "tree and attributed only when the case satisfies the finding's predicate and the real result equals the deviation model's "
+          "prediction exactly (F-C20-2, F-C20-6: differential predictor, see known_findings.json); query failures (F-C20-3) are "
+          "reported, not counted as wrong pruning.",
+  "technique": "TLA+ spec (SparseIndex.tla) model-checked by TLC; TLC-generated (record, fragment size, column kinds, condition, time bounds) cases replayed into the real index writer, key condition, index reader and skip-index readers with an inclusion (soundness) comparison",
+ },
 }
